@@ -27,6 +27,7 @@ ASSUMPTIONS = [
     'transpose is not stated to carry the table type; type is not compared '
     'across transpose',
 ]
+ANCHORS = ['Table.sort_order', 'Table.sort', 'Table.align_to', 'Table.transpose', 'Table.update_ids', 'Table.copy', 'natsort']
 REQUIRED = ['result_metadata_edits', 'sort_order', 'sort', 'align_to', 'transpose', 'copy',
             'update_ids', 'update_ids_refused', 'align_refused',
             'inverse_roundtrips', 'layout_csc_seen', 'layout_unsorted_seen',
